@@ -212,4 +212,16 @@ theorem knownItems_field (fields : List (String × Ty)) (kvs : List (Key × Val)
       subst hkv
       exact lookup_some_mem _ _ _ hl
 
+theorem knownPrefix_size (fields : List (String × Ty)) (kvs : List (Key × Val)) :
+    vsizeK (knownPrefix fields kvs) ≤ vsizeK kvs := by
+  unfold knownPrefix
+  induction kvs with
+  | nil => simp [vsizeK]
+  | cons kv rest ih =>
+    rcases kv with ⟨k, v⟩
+    simp only [List.takeWhile_cons]
+    split
+    · simp only [vsizeK]; omega
+    · simp [vsizeK]
+
 end Utv.C18
